@@ -21,9 +21,9 @@ PARTIAL_CONVERTERS = {'int': 'ValueError', 'float': 'ValueError', 'uuid.UUID': '
 
 
 def run(ctx):
-    atomic(ctx)
-    raises(ctx)
-    convert(ctx)
+    ctx.guard(atomic, ctx)
+    ctx.guard(raises, ctx)
+    ctx.guard(convert, ctx)
     if True:
         from . import lexrules
         lexrules.time_rule(ctx, 'C12-TIME', 'xtuml.load:ModelLoader', extra_regex_fn='xtuml.load:guess_type_name')
@@ -202,6 +202,35 @@ def raises(ctx):
             r.check(fam is not None, '%s raises %s (%s family)' % (q, name, fam), node, construct=q, key='raise ' + str(name),
                     msg='%s raises %s, which is neither ParsingException nor a MetaException subclass; reachable via %s'
                         % (q, name, ' -> '.join(cg.path(roots[0], q) or cg.path(roots[1], q) or [q])))
+    from .c13 import _none_guard
+    _none_guard(r, repo.methods(cls)['p_error'], 'xtuml.load:ModelLoader.p_error')
+    # building the exception message must not itself fail: %d only receives integer-typed expressions, arity matches
+    n_msgs = 0
+    for q in sorted(reach):
+        if not q.startswith('xtuml.'):
+            continue
+        for node in ast.walk(cg.funcs[q]):
+            if isinstance(node, ast.Raise) and isinstance(node.exc, ast.Call) and node.exc.args:
+                a0 = node.exc.args[0]
+                if isinstance(a0, ast.BinOp) and isinstance(a0.op, ast.Mod) and isinstance(a0.left, ast.Constant) and isinstance(a0.left.value, str):
+                    import re as _re
+                    convs = _re.findall(r'%[-0-9.]*([sdrfi%])', a0.left.value)
+                    convs = [c for c in convs if c != '%']
+                    args = a0.right.elts if isinstance(a0.right, ast.Tuple) else [a0.right]
+                    n_msgs += 1
+                    r.check(len(convs) == len(args), '%s: message has %d conversions and %d arguments' % (q, len(convs), len(args)), node, construct=q,
+                            key='msg-arity ' + a0.left.value[:30], msg='%s: the message %r has %d conversions but %d arguments: building the exception '
+                            'raises TypeError' % (q, a0.left.value, len(convs), len(args)))
+                    for cnv, arg in zip(convs, args):
+                        if cnv in ('d', 'i', 'f'):
+                            s_ = src(arg)
+                            inty = s_.endswith('.lineno') or s_.endswith('.lineno(1)') or s_.startswith('len(') or s_.startswith('int(') or \
+                                (isinstance(arg, ast.Constant) and isinstance(arg.value, (int, float))) or s_.endswith('.lexpos')
+                            r.check(inty, '%s: %%%s receives the number `%s`' % (q, cnv, s_), arg, construct=q, key='msg-type ' + s_,
+                                    msg='%s: the message %r formats `%s` with %%%s; that expression is statement text, not a number, so building the '
+                                        'documented exception raises an unrelated TypeError' % (q, a0.left.value, s_, cnv))
+    if n_msgs < 5:
+        raise AnalysisError('only %d formatted exception messages found' % n_msgs)
     # the documented rejection hooks raise on every path
     for name in ('t_error', 'p_error'):
         m = repo.methods(cls).get(name)
